@@ -57,10 +57,31 @@ def run(pid, mode, tier, seed, families=None, extra=None):
     maxdev = 0.0
     for nm in names:
         op = ops.OPS[nm]
-        for _ in range(per_op * (4 if nm.startswith(('inplace:', 'product:')) else 1)):
+        n_rand = per_op * (4 if nm.startswith(('inplace:', 'product:')) else 1)
+        forced = [3, 5] if nm.startswith('elem:') else []
+        for it_ in range(n_rand + len(forced)):
             case = op.gen(rng, Dmax=Dmax, Pmax=3)
             inputs = [numpy.array(x, dtype=float) for x in case['inputs']]
-            if rng.random() < 0.3 and inputs[0].shape[0] >= 3 and nm != 'arith:floordiv':     # (x // y with 0/0 at every order never terminates)
+            if it_ >= n_rand:
+                # deterministic coverage: first order vanishes everywhere, degree 3 resp. 5 (not a multiple of the lowest non-vanishing order)
+                Df = forced[it_ - n_rand]
+                for _t in range(30):
+                    if inputs[0].shape[0] >= Df:
+                        break
+                    case = op.gen(rng, Dmax=max(Dmax, 6), Pmax=3)
+                    inputs = [numpy.array(x, dtype=float) for x in case['inputs']]
+                if inputs[0].shape[0] < Df:
+                    continue
+                inputs = [x[:Df].copy() for x in inputs]
+                for x in inputs:
+                    x[1] = 0
+                    if not numpy.any(x[2]):
+                        x[2] = 0.75
+                case['inputs'] = [x.tolist() for x in inputs]
+                if 'D' in case:
+                    case['D'] = Df
+                rep.count('forced: first order vanishes everywhere, D', Df)
+            if it_ < n_rand and rng.random() < 0.3 and inputs[0].shape[0] >= 3 and nm != 'arith:floordiv':     # (x // y with 0/0 at every order never terminates)
                 # whole higher coefficients that vanish in some direction (x(t) = x_0 + x_2 t^2): kernels that shortcut on zeros
                 for x in inputs:
                     for d in range(1, x.shape[0]):
@@ -69,7 +90,17 @@ def run(pid, mode, tier, seed, families=None, extra=None):
                                 x[d, p] = 0
                 case['inputs'] = [x.tolist() for x in inputs]
                 rep.count('zero coefficient blocks', True)
+            elif it_ < n_rand and rng.random() < 0.2 and inputs[0].shape[0] >= 3 and nm != 'arith:floordiv':
+                # the first k orders vanish in EVERY direction and element (x(t) = x_0 + x_{k+1} t^{k+1} + ...): kernels that look for the
+                # lowest non-vanishing order of the whole array
+                k0 = rng.randint(1, min(2, inputs[0].shape[0] - 2))
+                for x in inputs:
+                    x[1:1 + k0] = 0
+                case['inputs'] = [x.tolist() for x in inputs]
+                rep.count('leading orders vanish everywhere', k0)
             D, P = inputs[0].shape[:2]
+            ops.LAYOUT = rng.choice(['C', 'C', 'C', 'F', 'T'])       # memory layout of the coefficient arrays handed to the kernels
+            rep.count('layout', ops.LAYOUT)
             try:
                 full = op.run(algopy, case, inputs)
             except Exception as e:
@@ -110,6 +141,7 @@ def run(pid, mode, tier, seed, families=None, extra=None):
                 sub_in = restrict(inputs, mode, k)[0]
                 sub_cases.append(dict(fn=nm[5:], prm=case['prm'], D=int(sub_in.shape[0]), P=int(sub_in.shape[1]), shape=list(sub_in.shape[2:]),
                                       pattern='restricted', route=case['route'], data=sub_in.tolist()))
+    ops.LAYOUT = 'C'
     program_section(rep, algopy, rng, mode, tier, what)
     if extra is not None:
         extra(rep, algopy, rng, tier)
